@@ -69,6 +69,7 @@ def run(ctx) -> None:
   ctx.rule('R7', 'max_* queries are not count-based where single elements can be deleted', 2)
   ctx.rule('R8', 'every SQL filter is an exact equality on key columns (the RAM backend addresses '
            'rows by exact dict keys): no LIKE/startswith/contains/range filters', 30)
+  ctx.rule('R9', 'SQL backend: every in-memory container is invalidated by every method that writes a table it was filled from', 1)
   if len(svc.ds_abstract) < 20:
     raise AnalysisError(f'only {len(svc.ds_abstract)} abstract DataStore methods found (20 on the pinned tree)')
 
@@ -80,6 +81,99 @@ def run(ctx) -> None:
   C01.r6_pass_by_value(ctx, svc)
   r7_max(ctx, svc)
   r8_exact_filters(ctx, svc)
+  r9_sql_caches(ctx, svc)
+
+
+# ----------------------------------------------------------------------- R9
+_CONTAINER_CTORS = {'dict', 'list', 'set', 'defaultdict', 'OrderedDict', 'Counter', 'deque', 'WeakValueDictionary', 'LRUCache'}
+
+
+def _tables_mentioned(node: ast.AST) -> Set[str]:
+  return {d[5:] for x in ast.walk(node) if isinstance(x, ast.Attribute)
+          for d in [dotted(x) or ''] if d.startswith('self._') and d.endswith('_table')}
+
+
+def _tables_written(fn: ast.AST) -> Set[str]:
+  out = set()
+  for c in ast.walk(fn):
+    if isinstance(c, ast.Call) and isinstance(c.func, ast.Attribute) and c.func.attr in ('insert', 'update', 'delete'):
+      d = dotted(c.func.value) or ''
+      if d.startswith('self._') and d.endswith('_table'):
+        out.add(d[5:])
+  return out
+
+
+def r9_sql_caches(ctx, svc: Svc) -> None:
+  """The SQL backend answers from the database.  Any in-memory container it keeps (a row cache,
+  a memo of ids...) must be invalidated by *every* method that writes a table the container was
+  filled from — otherwise reads keep answering from rows that no longer exist (delete + re-create
+  of a study, a second writer), which the RAM backend never does."""
+  sql = svc.sql
+  init = sql.methods.get('__init__')
+  if init is None:
+    raise AnalysisError('SQLDataStore.__init__ not found')
+  caches: Dict[str, ast.AST] = {}
+  for n in ast.walk(init.node):
+    tgt, val = None, None
+    if isinstance(n, ast.Assign) and len(n.targets) == 1:
+      tgt, val = n.targets[0], n.value
+    elif isinstance(n, ast.AnnAssign) and n.value is not None:
+      tgt, val = n.target, n.value
+    d = dotted(tgt) if tgt is not None else None
+    if not (d and d.startswith('self.') and d.count('.') == 1):
+      continue
+    is_container = isinstance(val, (ast.Dict, ast.List, ast.Set, ast.DictComp, ast.ListComp, ast.SetComp)) or (
+        isinstance(val, ast.Call) and (dotted(val.func) or '').rsplit('.', 1)[-1] in _CONTAINER_CTORS)
+    if is_container:
+      caches[d[5:]] = n
+  # memoising decorators on methods are caches too
+  for m in sql.methods.values():
+    for dec in m.node.decorator_list:
+      t = unparse(dec, 0)
+      if 'lru_cache' in t or 'functools.cache' in t or t.endswith('.cache') or 'cached_property' in t:
+        ctx.bad('R9', f'SQLDataStore.{m.name} is memoised ({t})', m.node,
+                f'`@{t}` on a datastore method: its answers survive every later write (no method invalidates a function cache)',
+                construct=f'memo:{m.name}', func=sql.qualname)
+  if not caches:
+    ctx.ok('R9', 'SQLDataStore keeps no in-memory container', init.node, 'every read is a query on the connection')
+    return
+  writers = {name: _tables_written(m.node) for name, m in sql.methods.items() if not name.startswith('__')}
+  writers = {k: v for k, v in writers.items() if v}
+  for attr, where_ in sorted(caches.items()):
+    fill_tables: Set[str] = set()
+    touch: Dict[str, bool] = {}
+    for name, m in sql.methods.items():
+      if name == '__init__':
+        continue
+      fills = False
+      invalidates = False
+      for x in ast.walk(m.node):
+        if isinstance(x, ast.Assign):
+          for t in x.targets:
+            if isinstance(t, ast.Subscript) and dotted(t.value) == f'self.{attr}':
+              fills = True
+            if dotted(t) == f'self.{attr}':
+              invalidates = True
+        if isinstance(x, ast.Call) and isinstance(x.func, ast.Attribute) and dotted(x.func.value) == f'self.{attr}':
+          if x.func.attr in ('pop', 'clear', 'popitem', 'remove', 'discard'):
+            invalidates = True
+          if x.func.attr in ('setdefault', 'append', 'add', 'update', 'extend', 'insert'):
+            fills = True
+        if isinstance(x, ast.Delete) and any(dotted(getattr(t, 'value', t)) == f'self.{attr}' for t in x.targets):
+          invalidates = True
+      if fills:
+        fill_tables |= _tables_mentioned(m.node)
+      touch[name] = invalidates or fills
+    for w, tabs in sorted(writers.items()):
+      relevant = (tabs & fill_tables) if fill_tables else tabs
+      if not relevant:
+        continue
+      ctx.check(touch.get(w, False), 'R9', f'SQLDataStore.{attr}: invalidated by {w}', sql.methods[w].node,
+                f'{w} writes {sorted(relevant)} and updates the container',
+                f'self.{attr} is filled from {sorted(fill_tables) or "queries"} but {w}() writes {sorted(relevant)} without touching it: '
+                'after that call reads are answered from rows that were changed or deleted (e.g. delete_study + re-creation of the '
+                'same name hands out trials that no longer exist); the RAM backend has no such state',
+                construct=f'{attr}:{w}', func=sql.qualname)
 
 
 # ----------------------------------------------------------------------- R1
